@@ -51,14 +51,54 @@ func Scope(
 	case schema.TypeIDScope:
 		return dataType.(schema.Scope), nil
 	case schema.TypeIDObject:
-		return schema.NewScopeSchema(
-			dataType.(*schema.ObjectSchema),
-		), nil
+		rootObject := dataType.(*schema.ObjectSchema)
+		// The properties may refer to objects of the scope they were taken from (for example a
+		// nested object of the workflow input). Those objects have to be part of the new scope,
+		// otherwise the references cannot be resolved in it.
+		referenced := map[string]*schema.ObjectSchema{}
+		collectReferencedObjects(rootObject, rootObject.ID(), referenced)
+		additionalObjects := make([]*schema.ObjectSchema, 0, len(referenced))
+		for _, object := range referenced {
+			additionalObjects = append(additionalObjects, object)
+		}
+		return schema.NewScopeSchema(rootObject, additionalObjects...), nil
 	default:
 		return nil, fmt.Errorf(
 			"invalid type for output root object: %s (must be an object)",
 			dataType.TypeID(),
 		)
+	}
+}
+
+// collectReferencedObjects gathers the objects that the given type refers to through resolved
+// references in its own scope, transitively.
+func collectReferencedObjects(t schema.Type, rootID string, found map[string]*schema.ObjectSchema) {
+	switch typed := t.(type) {
+	case *schema.ObjectSchema:
+		for _, property := range typed.Properties() {
+			collectReferencedObjects(property.Type(), rootID, found)
+		}
+	case *schema.RefSchema:
+		if typed.Namespace() != schema.SelfNamespace || !typed.ObjectReady() {
+			return
+		}
+		object, isObject := typed.GetObject().(*schema.ObjectSchema)
+		if !isObject || object.ID() == rootID {
+			return
+		}
+		if _, known := found[object.ID()]; known {
+			return
+		}
+		found[object.ID()] = object
+		collectReferencedObjects(object, rootID, found)
+	case schema.UntypedList:
+		collectReferencedObjects(typed.Items(), rootID, found)
+	case schema.UntypedMap:
+		collectReferencedObjects(typed.Values(), rootID, found)
+	case schema.OneOf[string]:
+		for _, option := range typed.Types() {
+			collectReferencedObjects(option, rootID, found)
+		}
 	}
 }
 
